@@ -67,6 +67,20 @@ Eval(e, env, st) ==
                           ELSE IF TooBig(x.v) \/ TooBig(y.v) THEN Bad
                           ELSE IF e.op = "/" /\ RIsZero(y.v) THEN Bad
                           ELSE Good(RBin(e.op, x.v, y.v))
+    \* n-ary and unary arithmetic (outside the library's fragment; this is its
+    \* standard meaning): (+ a b c) = a+b+c, (- a) = -a, (- a b c) = a-b-c
+    [] e.k = "nary" -> IF Len(e.es) = 0 THEN Bad
+                       ELSE IF Len(e.es) = 1 THEN
+                              LET x == Eval(e.es[1], env, st) IN
+                              IF ~x.ok \/ TooBig(x.v) THEN Bad
+                              ELSE IF e.op = "-" THEN Good(RNeg(x.v))
+                              ELSE IF e.op = "/" THEN (IF RIsZero(x.v) THEN Bad ELSE Good(RDiv(ROne, x.v)))
+                              ELSE x
+                       ELSE Eval([k |-> "bin", op |-> e.op,
+                                  l |-> (IF Len(e.es) = 2 THEN e.es[1]
+                                         ELSE [k |-> "nary", op |-> e.op, es |-> SubSeq(e.es, 1, Len(e.es) - 1)]),
+                                  r |-> e.es[Len(e.es)]], env, st)
+    [] OTHER -> Bad
 
 ----------------------------------------------------------------------------
 (* Three-valued connectives *)
@@ -99,6 +113,7 @@ Holds3(f, env, st, u, eps, dv) ==
                          ELSE AndSet({Holds3(f.f, Bind(env, f.v, o), st, u, eps, dv) : o \in ObjsOf(u, f.t)})
     [] f.k = "exists" -> OrSet({Holds3(f.f, Bind(env, f.v, o), st, u, eps, dv) : o \in ObjsOf(u, f.t)})
     [] f.k = "cmp"    -> Cmp3(f.op, Eval(f.l, env, st), Eval(f.r, env, st), eps)
+    [] OTHER          -> "U"
 
 TrueF == [k |-> "and", fs |-> <<>>]
 
@@ -109,6 +124,19 @@ TrueF == [k |-> "and", fs |-> <<>>]
 (* quantified type (subtypes included).                                    *)
 
 IsSimple(e) == e.k \in {"add", "del", "upd"}
+
+\* a conjunction nested inside the effect list means its members
+RECURSIVE FlattenEffs(_)
+FlattenEffs(effs) ==
+  IF effs = <<>> THEN <<>>
+  ELSE IF effs[1].k = "nestedand" THEN effs[1].es \o FlattenEffs(Tail(effs))
+  ELSE <<effs[1]>> \o FlattenEffs(Tail(effs))
+
+KnownEffect(e) ==
+  \/ e.k \in {"add", "del"}
+  \/ e.k = "upd" /\ e.op \in {"assign", "increase", "decrease", "scale-up", "scale-down"}
+  \/ e.k \in {"when", "forall"} /\ \A i \in DOMAIN e.es : e.es[i].k \in {"add", "del"} \/
+        (e.es[i].k = "upd" /\ e.es[i].op \in {"assign", "increase", "decrease", "scale-up", "scale-down"})
 
 UncondSeq(effs) == SelectSeq(effs, IsSimple)
 
@@ -138,7 +166,10 @@ NewVal(x, rd, old) ==
       ELSE IF t \notin DOMAIN old.fl THEN Bad
       ELSE IF TooBig(old.fl[t]) \/ TooBig(rhs.v) THEN Bad
       ELSE IF x[1].op = "increase" THEN Good(RAdd(old.fl[t], rhs.v))
-      ELSE Good(RSub(old.fl[t], rhs.v))
+      ELSE IF x[1].op = "decrease" THEN Good(RSub(old.fl[t], rhs.v))
+      ELSE IF x[1].op = "scale-up" THEN Good(RMul(old.fl[t], rhs.v))
+      ELSE IF x[1].op = "scale-down" /\ ~RIsZero(rhs.v) THEN Good(RDiv(old.fl[t], rhs.v))
+      ELSE Bad
 
 (* Consistency of the simultaneously firing effects (the quantifier of C03):
    no fluent written twice, no atom added by one group and deleted by
@@ -159,14 +190,16 @@ NoDupGroups(effs) == \A i, j \in DOMAIN effs : (i # j /\ ~IsSimple(effs[i])) => 
    don't-care (undetermined condition, undefined read, inconsistent effects). *)
 NoSucc == [ok |-> FALSE, st |-> [facts |-> {}, fl |-> <<>>]]
 
-Succ(effs, env, st, u, eps, dv) ==
-  LET G  == Groups(effs, env, u)
+Succ(effs0, env, st, u, eps, dv) ==
+  LET effs == FlattenEffs(effs0)
+      G  == IF \A i \in DOMAIN effs : KnownEffect(effs[i]) THEN Groups(effs, env, u) ELSE {}
       tv == [g \in G |-> GroupTruth(g, st, u, eps, dv)]
       F  == {g \in G : tv[g] = "T"}
       S  == SimpleOf(F)
       Up == UpdsOf(S)
       nv == [x \in Up |-> NewVal(x, st, st)]
-  IN  IF \E g \in G : tv[g] = "U" THEN NoSucc
+  IN  IF G = {} THEN NoSucc       \* an effect of a kind the semantics does not cover
+      ELSE IF \E g \in G : tv[g] = "U" THEN NoSucc
       ELSE IF ~NoDupGroups(effs) \/ ~Consistent(F) THEN NoSucc
       ELSE IF \E x \in Up : ~nv[x].ok THEN NoSucc
       ELSE [ok |-> TRUE,
